@@ -1,1 +1,666 @@
-//! reference model stub (to be written)
+//! M-SVG part 1: a strict XML 1.0 (Fifth Edition) well-formedness reader that
+//! returns a small DOM.  Written from the W3C recommendation, independent of
+//! the code under test and of any XML crate.
+//!
+//! Covered productions / well-formedness constraints:
+//!   [1] document, [2] Char (checked on every character of the entity),
+//!   [3] S, [4]/[4a]/[5] Name, [10] AttValue, [14] CharData (no `]]>`),
+//!   [15] Comment (no `--`), [16]/[17] PI (target != xml), [18]-[21] CDSect,
+//!   [22]-[27] prolog / XMLDecl / Misc, [32] SDDecl, [39]-[44] element, tags,
+//!   attributes, [66]-[68] references, [80]/[81] EncodingDecl;
+//!   WFC: element type match, unique att spec, no `<` in attribute values,
+//!   legal character (character references), entity declared (only the five
+//!   predefined entities exist because there is no DTD);
+//!   2.11 end-of-line handling (CRLF / CR -> LF before parsing),
+//!   3.3.3 attribute-value normalisation (CDATA type).
+//! Not supported (reported as an error, never silently accepted): DOCTYPE
+//! declarations.  `check_namespaces` adds the "Namespaces in XML 1.0"
+//! constraints on prefixes (separately callable).
+
+#[derive(Clone, Debug, PartialEq, Eq)]
+pub enum Node {
+    Element(Element),
+    Text(String),
+}
+
+#[derive(Clone, Debug, PartialEq, Eq, Default)]
+pub struct Element {
+    pub name: String,
+    /// attributes in document order, values normalised
+    pub attrs: Vec<(String, String)>,
+    pub children: Vec<Node>,
+}
+
+#[derive(Clone, Debug, PartialEq, Eq)]
+pub struct Document {
+    pub root: Element,
+    /// true if an XML declaration was present
+    pub has_decl: bool,
+}
+
+#[derive(Clone, Debug, PartialEq, Eq)]
+pub struct XmlError {
+    /// character offset in the line-end-normalised input
+    pub pos: usize,
+    pub msg: String,
+}
+
+impl std::fmt::Display for XmlError {
+    fn fmt(&self, f: &mut std::fmt::Formatter<'_>) -> std::fmt::Result {
+        write!(f, "not well-formed at char {}: {}", self.pos, self.msg)
+    }
+}
+
+impl Element {
+    pub fn attr(&self, name: &str) -> Option<&str> {
+        self.attrs.iter().find(|(k, _)| k == name).map(|(_, v)| v.as_str())
+    }
+    /// child elements, in order
+    pub fn elements(&self) -> impl Iterator<Item = &Element> {
+        self.children.iter().filter_map(|n| match n {
+            Node::Element(e) => Some(e),
+            Node::Text(_) => None,
+        })
+    }
+    /// concatenated character data of all descendants, in document order
+    pub fn text_content(&self) -> String {
+        let mut s = String::new();
+        self.collect_text(&mut s);
+        s
+    }
+    fn collect_text(&self, s: &mut String) {
+        for c in &self.children {
+            match c {
+                Node::Text(t) => s.push_str(t),
+                Node::Element(e) => e.collect_text(s),
+            }
+        }
+    }
+    /// character data that is a direct child of this element
+    pub fn own_text(&self) -> String {
+        let mut s = String::new();
+        for c in &self.children {
+            if let Node::Text(t) = c {
+                s.push_str(t);
+            }
+        }
+        s
+    }
+    /// first descendant-or-self child element with this name (depth first)
+    pub fn find(&self, name: &str) -> Option<&Element> {
+        if self.name == name {
+            return Some(self);
+        }
+        self.elements().find_map(|e| e.find(name))
+    }
+}
+
+/// production [2]
+pub fn is_char(c: char) -> bool {
+    matches!(c as u32, 0x9 | 0xA | 0xD | 0x20..=0xD7FF | 0xE000..=0xFFFD | 0x10000..=0x10FFFF)
+}
+
+/// production [4]
+pub fn is_name_start(c: char) -> bool {
+    matches!(c as u32,
+        0x3A | 0x41..=0x5A | 0x5F | 0x61..=0x7A | 0xC0..=0xD6 | 0xD8..=0xF6 | 0xF8..=0x2FF
+        | 0x370..=0x37D | 0x37F..=0x1FFF | 0x200C..=0x200D | 0x2070..=0x218F | 0x2C00..=0x2FEF
+        | 0x3001..=0xD7FF | 0xF900..=0xFDCF | 0xFDF0..=0xFFFD | 0x10000..=0xEFFFF)
+}
+
+/// production [4a]
+pub fn is_name_char(c: char) -> bool {
+    is_name_start(c) || matches!(c as u32, 0x2D | 0x2E | 0x30..=0x39 | 0xB7 | 0x300..=0x36F | 0x203F..=0x2040)
+}
+
+fn is_s(c: char) -> bool {
+    matches!(c, ' ' | '\t' | '\n' | '\r')
+}
+
+struct P {
+    s: Vec<char>,
+    i: usize,
+}
+
+type R<T> = Result<T, XmlError>;
+
+impl P {
+    fn err<T>(&self, msg: impl Into<String>) -> R<T> {
+        Err(XmlError { pos: self.i, msg: msg.into() })
+    }
+    fn peek(&self) -> Option<char> {
+        self.s.get(self.i).copied()
+    }
+    fn at(&self, lit: &str) -> bool {
+        let mut k = self.i;
+        for c in lit.chars() {
+            if self.s.get(k) != Some(&c) {
+                return false;
+            }
+            k += 1;
+        }
+        true
+    }
+    fn eat(&mut self, lit: &str) -> bool {
+        if self.at(lit) {
+            self.i += lit.chars().count();
+            true
+        } else {
+            false
+        }
+    }
+    fn expect(&mut self, lit: &str) -> R<()> {
+        if self.eat(lit) {
+            Ok(())
+        } else {
+            self.err(format!("expected {lit:?}"))
+        }
+    }
+    fn skip_s(&mut self) -> usize {
+        let st = self.i;
+        while self.peek().map_or(false, is_s) {
+            self.i += 1;
+        }
+        self.i - st
+    }
+    fn name(&mut self) -> R<String> {
+        let st = self.i;
+        match self.peek() {
+            Some(c) if is_name_start(c) => self.i += 1,
+            _ => return self.err("expected a Name"),
+        }
+        while self.peek().map_or(false, is_name_char) {
+            self.i += 1;
+        }
+        Ok(self.s[st..self.i].iter().collect())
+    }
+
+    /// Reference ::= EntityRef | CharRef, positioned at '&'; returns the replacement character
+    /// and whether it came from a character reference.
+    fn reference(&mut self) -> R<(char, bool)> {
+        self.expect("&")?;
+        if self.eat("#") {
+            let hex = self.eat("x");
+            let st = self.i;
+            let mut v: u32 = 0;
+            while let Some(c) = self.peek() {
+                let d = if hex { c.to_digit(16) } else { c.to_digit(10) };
+                // to_digit accepts only ASCII digits/letters for radix <= 36
+                match d {
+                    Some(d) => {
+                        v = v.saturating_mul(if hex { 16 } else { 10 }).saturating_add(d);
+                        self.i += 1;
+                    }
+                    None => break,
+                }
+            }
+            if self.i == st {
+                return self.err("character reference without digits");
+            }
+            if !self.eat(";") {
+                return self.err("character reference not terminated by ';'");
+            }
+            match char::from_u32(v) {
+                Some(c) if is_char(c) => Ok((c, true)),
+                _ => self.err(format!("character reference to #x{v:X}, which is not a legal Char")),
+            }
+        } else {
+            let n = match self.name() {
+                Ok(n) => n,
+                Err(_) => return self.err("bare '&' (neither an entity nor a character reference)"),
+            };
+            if !self.eat(";") {
+                return self.err("entity reference not terminated by ';'");
+            }
+            let c = match n.as_str() {
+                "lt" => '<',
+                "gt" => '>',
+                "amp" => '&',
+                "apos" => '\'',
+                "quot" => '"',
+                _ => return self.err(format!("reference to undeclared entity &{n};")),
+            };
+            Ok((c, false))
+        }
+    }
+
+    fn att_value(&mut self) -> R<String> {
+        let q = match self.peek() {
+            Some(c @ ('"' | '\'')) => c,
+            _ => return self.err("attribute value must be quoted"),
+        };
+        self.i += 1;
+        let mut v = String::new();
+        loop {
+            match self.peek() {
+                None => return self.err("unterminated attribute value"),
+                Some(c) if c == q => {
+                    self.i += 1;
+                    return Ok(v);
+                }
+                Some('<') => return self.err("'<' in attribute value"),
+                Some('&') => {
+                    let (c, _) = self.reference()?;
+                    v.push(c);
+                }
+                Some(c) if is_s(c) => {
+                    v.push(' ');
+                    self.i += 1;
+                }
+                Some(c) => {
+                    v.push(c);
+                    self.i += 1;
+                }
+            }
+        }
+    }
+
+    fn comment(&mut self) -> R<()> {
+        self.expect("<!--")?;
+        loop {
+            if self.at("--") {
+                if self.at("-->") {
+                    self.i += 3;
+                    return Ok(());
+                }
+                return self.err("'--' inside a comment");
+            }
+            if self.peek().is_none() {
+                return self.err("unterminated comment");
+            }
+            self.i += 1;
+        }
+    }
+
+    fn pi(&mut self) -> R<()> {
+        self.expect("<?")?;
+        let target = self.name()?;
+        if target.eq_ignore_ascii_case("xml") {
+            return self.err("processing instruction target 'xml' is reserved");
+        }
+        if self.eat("?>") {
+            return Ok(());
+        }
+        if self.skip_s() == 0 {
+            return self.err("white space required after the PI target");
+        }
+        loop {
+            if self.eat("?>") {
+                return Ok(());
+            }
+            if self.peek().is_none() {
+                return self.err("unterminated processing instruction");
+            }
+            self.i += 1;
+        }
+    }
+
+    fn eq(&mut self) -> R<()> {
+        self.skip_s();
+        self.expect("=")?;
+        self.skip_s();
+        Ok(())
+    }
+
+    fn quoted(&mut self) -> R<String> {
+        let q = match self.peek() {
+            Some(c @ ('"' | '\'')) => c,
+            _ => return self.err("expected a quoted literal"),
+        };
+        self.i += 1;
+        let st = self.i;
+        while let Some(c) = self.peek() {
+            if c == q {
+                let v: String = self.s[st..self.i].iter().collect();
+                self.i += 1;
+                return Ok(v);
+            }
+            self.i += 1;
+        }
+        self.err("unterminated literal")
+    }
+
+    fn xml_decl(&mut self) -> R<()> {
+        self.expect("<?xml")?;
+        if self.skip_s() == 0 {
+            return self.err("white space required after '<?xml'");
+        }
+        self.expect("version")?;
+        self.eq()?;
+        let v = self.quoted()?;
+        let ok = v.strip_prefix("1.").map_or(false, |r| !r.is_empty() && r.bytes().all(|b| b.is_ascii_digit()));
+        if !ok {
+            return self.err(format!("bad VersionNum {v:?}"));
+        }
+        let mut had_s = self.skip_s() > 0;
+        if self.at("encoding") {
+            if !had_s {
+                return self.err("white space required before 'encoding'");
+            }
+            self.expect("encoding")?;
+            self.eq()?;
+            let e = self.quoted()?;
+            let mut it = e.chars();
+            let ok = it.next().map_or(false, |c| c.is_ascii_alphabetic())
+                && it.all(|c| c.is_ascii_alphanumeric() || matches!(c, '.' | '_' | '-'));
+            if !ok {
+                return self.err(format!("bad EncName {e:?}"));
+            }
+            had_s = self.skip_s() > 0;
+        }
+        if self.at("standalone") {
+            if !had_s {
+                return self.err("white space required before 'standalone'");
+            }
+            self.expect("standalone")?;
+            self.eq()?;
+            let e = self.quoted()?;
+            if e != "yes" && e != "no" {
+                return self.err(format!("bad standalone value {e:?}"));
+            }
+            self.skip_s();
+        }
+        if !self.eat("?>") {
+            return self.err("malformed XML declaration");
+        }
+        Ok(())
+    }
+
+    /// Misc* ; returns Err on anything that is neither Misc nor the start of something else
+    fn misc(&mut self) -> R<()> {
+        loop {
+            self.skip_s();
+            if self.at("<!--") {
+                self.comment()?;
+            } else if self.at("<?") {
+                self.pi()?;
+            } else {
+                return Ok(());
+            }
+        }
+    }
+
+    fn push_text(children: &mut Vec<Node>, c: char) {
+        if let Some(Node::Text(t)) = children.last_mut() {
+            t.push(c);
+        } else {
+            children.push(Node::Text(c.to_string()));
+        }
+    }
+
+    /// element, positioned at '<' of the start tag.  Iterative over an explicit stack so that
+    /// deeply nested documents cannot overflow the call stack.
+    fn element(&mut self) -> R<Element> {
+        let mut stack: Vec<Element> = vec![];
+        loop {
+            // --- start tag ---
+            self.expect("<")?;
+            let name = self.name()?;
+            let mut el = Element { name, attrs: vec![], children: vec![] };
+            let mut empty = false;
+            loop {
+                let had_s = self.skip_s() > 0;
+                if self.eat(">") {
+                    break;
+                }
+                if self.eat("/>") {
+                    empty = true;
+                    break;
+                }
+                if self.peek().is_none() {
+                    return self.err("unterminated start tag");
+                }
+                if !had_s {
+                    return self.err("white space required between attributes");
+                }
+                let an = self.name()?;
+                self.eq()?;
+                let av = self.att_value()?;
+                if el.attrs.iter().any(|(k, _)| *k == an) {
+                    return self.err(format!("duplicate attribute {an:?}"));
+                }
+                el.attrs.push((an, av));
+            }
+            if !empty {
+                stack.push(el);
+            } else {
+                match stack.last_mut() {
+                    Some(p) => p.children.push(Node::Element(el)),
+                    None => return Ok(el),
+                }
+            }
+            // --- content of the innermost open element, until the next start tag ---
+            'content: loop {
+                let Some(cur) = stack.last_mut() else { unreachable!() };
+                match self.peek() {
+                    None => return self.err(format!("end of input inside element <{}>", cur.name)),
+                    Some('<') => {
+                        if self.at("</") {
+                            self.i += 2;
+                            let n = self.name()?;
+                            self.skip_s();
+                            if !self.eat(">") {
+                                return self.err("malformed end tag");
+                            }
+                            let done = stack.pop().unwrap();
+                            if n != done.name {
+                                return self.err(format!("end tag </{n}> does not match start tag <{}>", done.name));
+                            }
+                            match stack.last_mut() {
+                                Some(p) => p.children.push(Node::Element(done)),
+                                None => return Ok(done),
+                            }
+                        } else if self.at("<!--") {
+                            self.comment()?;
+                        } else if self.at("<![CDATA[") {
+                            self.i += 9;
+                            loop {
+                                if self.eat("]]>") {
+                                    break;
+                                }
+                                match self.peek() {
+                                    None => return self.err("unterminated CDATA section"),
+                                    Some(c) => {
+                                        let cur = stack.last_mut().unwrap();
+                                        Self::push_text(&mut cur.children, c);
+                                        self.i += 1;
+                                    }
+                                }
+                            }
+                        } else if self.at("<?") {
+                            self.pi()?;
+                        } else if self.at("<!") {
+                            return self.err("markup declaration inside content");
+                        } else {
+                            break 'content; // a child start tag
+                        }
+                    }
+                    Some('&') => {
+                        let (c, _) = self.reference()?;
+                        let cur = stack.last_mut().unwrap();
+                        Self::push_text(&mut cur.children, c);
+                    }
+                    Some(c) => {
+                        if self.at("]]>") {
+                            return self.err("']]>' in character data");
+                        }
+                        Self::push_text(&mut cur.children, c);
+                        self.i += 1;
+                    }
+                }
+            }
+        }
+    }
+}
+
+/// 2.11: translate CRLF and lone CR to LF.
+pub fn normalize_line_ends(input: &str) -> String {
+    let mut out = String::with_capacity(input.len());
+    let mut it = input.chars().peekable();
+    while let Some(c) = it.next() {
+        if c == '\r' {
+            if it.peek() == Some(&'\n') {
+                it.next();
+            }
+            out.push('\n');
+        } else {
+            out.push(c);
+        }
+    }
+    out
+}
+
+/// Parse a complete document entity.
+pub fn parse(input: &str) -> Result<Document, XmlError> {
+    let text = normalize_line_ends(input);
+    let s: Vec<char> = text.chars().collect();
+    // a byte order mark may precede the document entity
+    let start = if s.first() == Some(&'\u{FEFF}') { 1 } else { 0 };
+    for (k, &c) in s.iter().enumerate().skip(start) {
+        if !is_char(c) {
+            return Err(XmlError { pos: k, msg: format!("U+{:04X} is not a legal XML Char", c as u32) });
+        }
+    }
+    let mut p = P { s, i: start };
+    let mut has_decl = false;
+    if p.at("<?xml") && p.s.get(p.i + 5).map_or(false, |&c| is_s(c)) {
+        p.xml_decl()?;
+        has_decl = true;
+    }
+    p.misc()?;
+    if p.at("<!DOCTYPE") {
+        return p.err("DOCTYPE declarations are not supported by this reader");
+    }
+    if p.peek() != Some('<') {
+        return p.err(if p.peek().is_none() { "no root element" } else { "content before the root element" });
+    }
+    let root = p.element()?;
+    p.misc()?;
+    if p.peek().is_some() {
+        return p.err("content after the root element");
+    }
+    Ok(Document { root, has_decl })
+}
+
+/// "Namespaces in XML 1.0": every prefix used on an element or attribute name is declared in
+/// scope (`xml` is predeclared), names have at most one colon with non-empty parts, `xmlns`
+/// is not used as a prefix of an element, no prefix is bound to the empty string.
+pub fn check_namespaces(root: &Element) -> Result<(), String> {
+    fn split(name: &str) -> Result<(Option<&str>, &str), String> {
+        let mut it = name.split(':');
+        let a = it.next().unwrap();
+        match (it.next(), it.next()) {
+            (None, _) => Ok((None, a)),
+            (Some(b), None) if !a.is_empty() && !b.is_empty() => Ok((Some(a), b)),
+            _ => Err(format!("{name:?} is not a QName")),
+        }
+    }
+    fn walk(e: &Element, scope: &mut Vec<String>) -> Result<(), String> {
+        let mark = scope.len();
+        for (k, v) in &e.attrs {
+            if let Some(p) = k.strip_prefix("xmlns:") {
+                if v.is_empty() {
+                    return Err(format!("prefix {p:?} bound to the empty namespace name"));
+                }
+                if p == "xmlns" {
+                    return Err("the prefix xmlns must not be declared".into());
+                }
+                scope.push(p.to_string());
+            }
+        }
+        let (p, _) = split(&e.name)?;
+        if let Some(p) = p {
+            if p == "xmlns" {
+                return Err("element name uses the xmlns prefix".into());
+            }
+            if p != "xml" && !scope.iter().any(|s| s == p) {
+                return Err(format!("undeclared namespace prefix {p:?} on element <{}>", e.name));
+            }
+        }
+        let mut seen: Vec<(Option<&str>, &str)> = vec![];
+        for (k, _) in &e.attrs {
+            let (p, l) = split(k)?;
+            if let Some(p) = p {
+                if p != "xml" && p != "xmlns" && !scope.iter().any(|s| s == p) {
+                    return Err(format!("undeclared namespace prefix {p:?} on attribute {k:?}"));
+                }
+            }
+            seen.push((p, l));
+        }
+        for c in e.elements() {
+            walk(c, scope)?;
+        }
+        scope.truncate(mark);
+        Ok(())
+    }
+    walk(root, &mut vec![])
+}
+
+#[cfg(test)]
+mod tests {
+    use super::*;
+
+    fn ok(s: &str) -> Document {
+        parse(s).unwrap_or_else(|e| panic!("{s:?} should be well-formed: {e}"))
+    }
+    fn bad(s: &str) {
+        assert!(parse(s).is_err(), "{s:?} should be rejected");
+    }
+
+    #[test]
+    fn accepts() {
+        let d = ok("<a/>");
+        assert_eq!(d.root.name, "a");
+        ok("<?xml version=\"1.0\" encoding='UTF-8' standalone=\"yes\"?>\n<!-- c --><?pi x?><a b='1' c=\"2\"> t <b/>&lt;&#65;&#x42;<![CDATA[<&]]></a>\n<!-- d -->\n");
+        let d = ok("<a x=' p\tq\n'>&amp;&apos;&quot;&gt;]]&gt;</a>");
+        assert_eq!(d.root.attr("x"), Some(" p q "));
+        assert_eq!(d.root.text_content(), "&'\">]]>");
+        let d = ok("<a>x\r\ny\rz&#13;</a>");
+        assert_eq!(d.root.text_content(), "x\ny\nz\r");
+        let d = ok("<t xml:space=\"preserve\"><s class=\"k\">\u{4e16}\u{200b}\u{301}</s>\n</t>");
+        assert_eq!(d.root.elements().next().unwrap().text_content(), "\u{4e16}\u{200b}\u{301}");
+        assert_eq!(d.root.own_text(), "\n");
+        ok("<a>></a>");
+        ok("<a>\"'</a>");
+        ok("<a b=\"'\" c='\"'/>");
+        ok("<a b=\">\"/>");
+        ok("<a\n b = 'x'\n/>");
+        ok("<a></a >");
+        ok("\u{feff}<a/>");
+        ok("<a><?p?></a>");
+        ok("<_a.b-c:d\u{b7}/>");
+    }
+
+    #[test]
+    fn rejects() {
+        for s in [
+            "", " ", "x", "<a>", "</a>", "<a></b>", "<a/><b/>", "<a/>x", "x<a/>", "<a><b></a></b>",
+            "<a>&</a>", "<a>&lt</a>", "<a>&foo;</a>", "<a>&#0;</a>", "<a>&#x1F;</a>", "<a>&#xFFFE;</a>",
+            "<a>&#;</a>", "<a>&#x;</a>", "<a>&#xD800;</a>", "<a>&#1114112;</a>", "<a><</a>", "<a>]]></a>",
+            "<a b=\"<\"/>", "<a b=\"&\"/>", "<a b=c/>", "<a b/>", "<a b='1' b='2'/>", "<a b='1'c='2'/>",
+            "<a b='1/>", "<a>\u{c}</a>", "<a>\u{1}</a>", "<a>\u{ffff}</a>", "<a>\u{fffe}</a>", "<a b='\u{b}'/>",
+            "<1a/>", "<-a/>", "< a/>", "<a><!-- -- --></a>", "<a><!-- x ---></a>", "<a><!-- x</a>",
+            "<a><?xml x?></a>", "<a><?XmL?></a>", "<a><?p</a>", "<a><![CDATA[x</a>", "<a><!DOCTYPE x></a>",
+            "<!DOCTYPE a><a/>", "<?xml version='2.0'?><a/>", "<?xml?><a/>", " <?xml version='1.0'?><a/>",
+            "<?xml version='1.0' standalone='maybe'?><a/>", "<?xml version='1.0'encoding='x'?><a/>",
+            "<a/><?xml version='1.0'?>", "<a", "<a b='x'", "<a></a", "<a/ >", "<a>&#x110000;</a>",
+            "<a>&#xFFFFFFFFFF;</a>", "<a>&#-1;</a>", "<a>&# 1;</a>", "<a>& amp;</a>", "<a>&amp ;</a>",
+        ] {
+            bad(s);
+        }
+    }
+
+    #[test]
+    fn namespaces() {
+        let d = ok("<svg xmlns=\"u\"><text xml:space=\"preserve\"/></svg>");
+        assert!(check_namespaces(&d.root).is_ok());
+        let d = ok("<svg><x:a/></svg>");
+        assert!(check_namespaces(&d.root).is_err());
+        let d = ok("<svg xmlns:x='u'><x:a x:b='1'/></svg>");
+        assert!(check_namespaces(&d.root).is_ok());
+        let d = ok("<svg><a y:b='1'/></svg>");
+        assert!(check_namespaces(&d.root).is_err());
+        let d = ok("<a:b:c/>");
+        assert!(check_namespaces(&d.root).is_err());
+    }
+}
